@@ -7,9 +7,10 @@ code: calls are opaque events.  It is used for structural rules (which call is
 made under which match-arm constraints, with which argument provenance; which
 stores happen before which calls; what is returned).
 """
+import re
 
-ADAPTERS = {"std::result::Result::<T, E>::map": ("Ok", "Err", "std::result::Result"),
-            "std::option::Option::<T>::map": ("Some", "None", "std::option::Option")}
+ADAPTER_RE = re.compile(r"(?:std|core)::(?:(result::Result::<T, E>|option::Option::<T>)::(map|and_then|map_or_else|map_or|unwrap_or_else|unwrap_or|ok_or_else|ok_or|ok)"
+                        r"|bool::<impl bool>::(then|then_some))$")
 CLOSURE_CALLS = ("std::ops::FnMut::call_mut", "std::ops::FnOnce::call_once", "std::ops::Fn::call")
 TRANSPARENT_TRY = "std::ops::Try::branch"
 FROM_RESIDUAL = "std::ops::FromResidual::from_residual"
@@ -211,7 +212,8 @@ class Walker:
                     continue
                 t = ("field", t, name)
             elif isinstance(e, dict) and "downcast" in e:
-                t = ("variant", t, e["variant"])
+                if not (t[0] == "agg" and t[1] == "adt" and t[3] == e["variant"]):      # (a value built as that variant is itself)
+                    t = ("variant", t, e["variant"])
                 continue
             elif isinstance(e, dict) and "index" in e:
                 it = self.local_term(st, e["index"])
@@ -618,39 +620,102 @@ class Walker:
         a0 = ("ref", v) if str(l1).startswith("&") else v          # (call_once of an Fn/FnMut closure goes through a by-reference shim)
         return bl[0], (a0,) + tuple(tup[1])
 
-    def adapter_forks(self, st, fname, args):
-        """Result::map / Option::map with a closure whose value is known: the closure body is walked on the Ok/Some payload, the
-        other variant passes through (std docs)"""
-        ad = ADAPTERS.get(fname)
-        if ad is None or len(args) != 2 or not hasattr(self, "inline_call"):
+    def apply_callable(self, st, f, cargs):
+        """forks [{"state", "res"}] of calling the function value f (closure, function item or enum constructor) on cargs in
+        state st, or None when f is not known"""
+        v = self.callable_value(st, f)
+        if isinstance(v, tuple) and v and v[0] == "fnitem":
+            m = re.match(r"(?:std|core)::(.*)::(Ok|Err|Some)$", v[1])
+            if m:
+                adt = "std::result::Result" if m.group(2) in ("Ok", "Err") else "std::option::Option"
+                return [{"state": st, "res": ("agg", "adt", adt, m.group(2), tuple(cargs), ("0",))}]
+            bl = self.facts.by_path.get(v[1], []) if getattr(self, "facts", None) is not None else []
+            if len(bl) == 1 and bl[0].get("blocks") and bl[0]["kind"] in ("Fn", "AssocFn") and not self.is_closure_path(v[1]):
+                self._cur_fn_args = tuple(v[2]) if len(v) > 2 and v[2] else ()
+                return self.inline_call(st, bl[0], tuple(cargs))
+        ct = self.closure_target(st, "std::ops::FnOnce::call_once", (f, ("tuple", tuple(cargs))))
+        if ct is None:
             return None
-        okv, errv, adt = ad
+        return self.inline_call(st, ct[0], ct[1])
+
+    def adapter_forks(self, st, fname, args):
+        """the combinators of Result / Option / bool with function values that are known on the path (std docs): the function is
+        walked on the payload of the variant it applies to, the other variant passes through or takes the default"""
+        if fname.endswith("Option<T>>::flatten") and len(args) == 1 and isinstance(args[0], tuple) and args[0]:
+            r = args[0]
+            none = ("agg", "adt", "std::option::Option", "None", (), ())
+            if r[0] == "agg" and r[1] == "adt":
+                return [{"state": st, "res": (r[4][0] if r[3] == "Some" and r[4] else none)}]
+            s1, s0 = self.fork(st), self.fork(st)
+            self.add_cons(s1, (("discr", r), "==", 1))
+            self.add_cons(s0, (("discr", r), "==", 0))
+            return [{"state": s1, "res": ("okval", r)}, {"state": s0, "res": none}]
+        m = ADAPTER_RE.match(fname)
+        if m is None or not hasattr(self, "inline_call") or not args:
+            return None
+        kind, fn = ("bool", m.group(3)) if m.group(3) else (("Result" if "result" in m.group(1) else "Option"), m.group(2))
         r = args[0]
         if not isinstance(r, tuple) or not r:
             return None
-        known = r[3] if (r[0] == "agg" and r[1] == "adt") else None
-        payload = r[4][0] if known == okv and r[4] else ("okval", r)
-        ct = self.closure_target(st, "std::ops::FnOnce::call_once", (args[1], ("tuple", (payload,))))
-        if ct is None:
+        if kind == "bool":
+            good_v, bad_v, adt = "true", "false", None
+            cgood, cbad = (r, "notin", (0,)), (r, "==", 0)
+            known = ("true" if r[1] else "false") if (r[0] == "const" and isinstance(r[1], bool)) else None
+            payload_good, payload_bad = None, None
+        else:
+            adt = "std::result::Result" if kind == "Result" else "std::option::Option"
+            good_v, bad_v = ("Ok", "Err") if kind == "Result" else ("Some", "None")
+            ig, ib = (0, 1) if kind == "Result" else (1, 0)
+            cgood, cbad = (("discr", r), "==", ig), (("discr", r), "==", ib)
+            known = r[3] if (r[0] == "agg" and r[1] == "adt") else None
+            payload_good = r[4][0] if (known == good_v and r[4]) else ("okval", r)
+            payload_bad = (r[4][0] if (known == bad_v and r[4]) else ("field", ("variant", r, "Err"), "0")) if kind == "Result" else None
+        opt = lambda v, x=None: ("agg", "adt", "std::option::Option", v, ((x,) if v == "Some" else ()), (("0",) if v == "Some" else ()))
+        res_ = lambda v, x: ("agg", "adt", "std::result::Result", v, (x,), ("0",))
+        same_bad = r if known == bad_v else (res_("Err", payload_bad) if kind == "Result" else opt("None"))
+        badargs = [payload_bad] if kind == "Result" else []
+        # (variant) -> ("call", function value, arguments, wrap) | ("value", term)
+        spec = {
+            "map": (("call", 1, [payload_good], lambda x: (res_("Ok", x) if kind == "Result" else opt("Some", x))), ("value", same_bad)),
+            "and_then": (("call", 1, [payload_good], None), ("value", same_bad)),
+            "map_or_else": (("call", 2, [payload_good], None), ("call", 1, badargs, None)),
+            "map_or": (("call", 2, [payload_good], None), ("value", args[1] if len(args) > 1 else None)),
+            "unwrap_or_else": (("value", payload_good), ("call", 1, badargs, None)),
+            "unwrap_or": (("value", payload_good), ("value", args[1] if len(args) > 1 else None)),
+            "unwrap_or_default": None,
+            "ok_or_else": (("value", res_("Ok", payload_good)), ("call", 1, [], lambda x: res_("Err", x))),
+            "ok_or": (("value", res_("Ok", payload_good)), ("value", res_("Err", args[1]) if len(args) > 1 else None)),
+            "ok": (("value", opt("Some", payload_good)), ("value", opt("None"))),
+            "then": (("call", 1, [], lambda x: opt("Some", x)), ("value", opt("None"))),
+            "then_some": (("value", opt("Some", args[1]) if len(args) > 1 else None), ("value", opt("None"))),
+        }.get(fn)
+        if spec is None or (kind == "Result" and fn in ("ok_or", "ok_or_else")) or (kind == "Option" and fn == "ok"):
             return None
         out = []
-        if known in (None, okv):
-            s_ok = self.fork(st)
+        for which, (cons, act) in (("good", (cgood, spec[0])), ("bad", (cbad, spec[1]))):
+            if known is not None and known != (good_v if which == "good" else bad_v):
+                continue
+            s2 = self.fork(st)
             if known is None:
-                self.add_cons(s_ok, (("discr", r), "==", 0))
-            if known is not None or self.state_feasible(s_ok):
-                for fk in self.inline_call(s_ok, ct[0], ct[1]):
-                    fk = dict(fk)
-                    fk["res"] = ("agg", "adt", adt, okv, (fk.get("res"),), ("0",))
-                    out.append(fk)
-        if known in (None, errv):
-            s_er = self.fork(st)
-            if known is None:
-                self.add_cons(s_er, (("discr", r), "==", 1))
-                e = ("agg", "adt", adt, errv, ((("field", ("variant", r, errv), "0"),) if errv == "Err" else ()), (("0",) if errv == "Err" else ()))
-            else:
-                e = r
-            out.append({"state": s_er, "res": e})
+                self.add_cons(s2, cons)
+                if not self.state_feasible(s2):
+                    continue
+            if act[0] == "value":
+                if act[1] is None:
+                    return None
+                out.append({"state": s2, "res": act[1]})
+                continue
+            _, ai, cargs, wrap = act
+            if ai >= len(args):
+                return None
+            fks = self.apply_callable(s2, args[ai], cargs)
+            if fks is None:
+                return None
+            for fk in fks:
+                fk = dict(fk)
+                if wrap is not None:
+                    fk["res"] = wrap(fk.get("res"))
+                out.append(fk)
         return out
 
     def branch_feasible(self, st, d, op, v):
